@@ -1074,7 +1074,7 @@ class Engine:
         fi = st.frame.func
         if fi is None:
             return None
-        c = self.contracts.get(fi.fq)
+        c = self.current_contract if (self.current_contract is not None and self.current_contract.func.split("#")[0] == fi.fq) else self.contracts.get(fi.fq)
         if c is None:
             return None
         return c.loops.get(self.loop_ordinal(n, st))
@@ -1310,6 +1310,8 @@ class Engine:
             return sv_str(mod.name if mod else "?")
         if name in self.exc_parent:
             return SV("class", name)
+        if self.spec_ctx and name in self.repo.classes:
+            return SV("class", name)  # specifications may name any class of the package
         return None
 
     def global_to_sv(self, r, key):
